@@ -196,7 +196,7 @@ func c14Search() {
 			sum.Failures++
 			trimTape(sc.Tape, o.stats)
 			emit(outRec{T: "fail", Property: "C14", Seed: runSeed, Class: o.class, Sig: o.sig, Detail: o.detail, Replay: sc,
-				Extra: map[string]interface{}{"trace": o.history}})
+				Extra: map[string]interface{}{"trace": o.history, "history": historyInfo(idx)}})
 		}
 	}
 	sum.Distinct = distinct.list()
